@@ -630,11 +630,741 @@ def generate(repo, out_path):
     return ", ".join(summary)
 
 
+
+# ======================================================================================================================
+# Part 2: the loops of include/nstd/Array.hpp -> lean/Nstd/Generated/SeqArr.lean
+#
+# Translated member functions (each becomes a Lean function over the checked memory of lean/Nstd/Seq/ArrMem.lean, loops
+# become functions recursive in a fuel argument, running out of fuel is `none`):
+#     reserve(usize)  [from the allocation statement on: growth loop, delete[], re-pointing]      reserve(usize, const T*)
+#     resize(usize, const T&)   clear()   append(const T&)   append(const T*, usize)   remove(usize)   remove(const Iterator&)
+# lean/Nstd/Seq/PropsArr.lean proves each of them equal to the cell-level model function of RawArray.lean on every memory
+# that represents a model state.
+#
+# Semantics (assumptions, listed in the MANIFEST note):
+#   T* / const T* / Iterator::item -> Option (allocation id × offset) (none = null); usize -> Nat (no wrap-around)
+#   `const T& value` parameter -> the pointer `&value`; `return *p;` of a function returning `T&` -> returns `p`
+#   `new(p) T(*q)` -> AM.rd then AM.con;  `p->~T()` -> AM.des;  `*p = *q` -> AM.rd then AM.asg;  `delete[] (char*)p` -> AM.del
+#   `(T*)new char[sizeof(T) * n]` (with or without the overflow guard of fix 0003) -> AM.alloc of n raw cells; never fails
+#   `#ifdef VERIFY  VERIFY(X == p);  #else  X;  #endif` -> X (the two branches must be the same placement-new)
+#   evaluation order: right operand of `=` first (C++17); operands of other binary operators must be free of side effects
+#   NOT translated: the guard and the capacity rounding of reserve(usize) (everything in front of the allocation statement;
+#   only `_capacity` may be assigned there): replaced by the model's rule `size > cap || (!begin && size > 0)`,
+#   `cap = max(size, cap) | mask`, which is tied to the sources by the executed probe (SeqConst.lean)
+ATOK = re.compile(r"\s*(->|==|!=|<=|>=|&&|\|\||\+\+|--|\|=|\+=|-=|&=|0[xX][0-9a-fA-F]+|[A-Za-z_]\w*|\d+|[{}()\[\];,<>=+\-*/!?:&.~|^%])")
+IDENT = re.compile(r"[A-Za-z_]\w*$")
+
+
+def atokenize(text):
+    toks, pos = [], 0
+    text = text.rstrip()
+    while pos < len(text):
+        m = ATOK.match(text, pos)
+        if not m:
+            if text[pos:].strip() == "":
+                break
+            raise Refuse(f"cannot tokenize at {text[pos:pos + 30]!r}")
+        toks.append(m.group(1))
+        pos = m.end()
+    return toks
+
+
+def resolve_verify(src):
+    """`#ifdef VERIFY  VERIFY(<placement new> == p);  #else  <placement new>;  #endif`  ->  `<placement new>;`"""
+    def rep(m):
+        a = re.sub(r"\s+", "", m.group(1))
+        b = re.sub(r"\s+", "", m.group(2))
+        mm = re.fullmatch(r"VERIFY\((.*)==(\w+)\);", a)
+        if not mm or mm.group(1) + ";" != b or not b.startswith("new(" + mm.group(2) + ")"):
+            raise Refuse(f"#ifdef VERIFY: the two branches `{a}` / `{b}` are not the same placement-new")
+        return m.group(2)
+    return re.sub(r"#ifdef[ \t]+VERIFY[ \t]*\n(.*?)#else[ \t]*\n(.*?)#endif[^\n]*\n", rep, src, flags=re.S)
+
+
+class AP:
+    """parser of the statement / expression subset of the Array member functions"""
+
+    def __init__(self, toks, fn):
+        self.t, self.i, self.fn = toks, 0, fn
+
+    def peek(self, k=0):
+        return self.t[self.i + k] if self.i + k < len(self.t) else None
+
+    def eat(self, x=None):
+        tok = self.peek()
+        if tok is None or (x is not None and tok != x):
+            raise Refuse(f"{self.fn}: expected {x!r}, found {tok!r}")
+        self.i += 1
+        return tok
+
+    def stmts(self):
+        out = []
+        while self.peek() is not None and self.peek() != "}":
+            out.append(self.stmt())
+        return out
+
+    def is_decl(self):
+        j = 1 if self.peek() == "const" else 0
+        return self.peek(j) in ("T", "usize") and (self.peek(j + 1) == "*" or IDENT.match(self.peek(j + 1) or ""))
+
+    def decl(self):
+        if self.peek() == "const":
+            self.eat()
+        base = self.eat()
+        ds = []
+        while True:
+            ptr = False
+            if self.peek() == "*":
+                self.eat(); ptr = True
+            name = self.eat()
+            if not IDENT.match(name):
+                raise Refuse(f"{self.fn}: declarator `{name}`")
+            if base == "T" and not ptr:
+                raise Refuse(f"{self.fn}: local `{name}` of type T (a value, not a pointer) is outside the translated subset")
+            if base == "usize" and ptr:
+                raise Refuse(f"{self.fn}: `usize* {name}` is outside the translated subset")
+            init = None
+            if self.peek() == "=":
+                self.eat()
+                init = self.assign()
+            ds.append(("ptr" if ptr else "nat", name, init))
+            if self.peek() == ",":
+                self.eat()
+                continue
+            break
+        return ("decl", ds)
+
+    def stmt(self):
+        tok = self.peek()
+        if tok == "{":
+            self.eat("{")
+            b = self.stmts()
+            self.eat("}")
+            return ("block", b)
+        if tok == "if":
+            self.eat("if"); self.eat("(")
+            c = self.expr()
+            self.eat(")")
+            a = self.stmt()
+            b = ("block", [])
+            if self.peek() == "else":
+                self.eat("else")
+                b = self.stmt()
+            return ("if", c, a, b)
+        if tok == "for":
+            self.eat("for"); self.eat("(")
+            init = None
+            if self.peek() != ";":
+                init = self.decl() if self.is_decl() else ("expr", self.expr())
+            self.eat(";")
+            cond = None if self.peek() == ";" else self.expr()
+            self.eat(";")
+            steps = []
+            if self.peek() != ")":
+                steps.append(self.assign())
+                while self.peek() == ",":
+                    self.eat()
+                    steps.append(self.assign())
+            self.eat(")")
+            return ("for", init, cond, steps, self.stmt())
+        if tok == "return":
+            self.eat("return")
+            e = None if self.peek() == ";" else self.expr()
+            self.eat(";")
+            return ("return", e)
+        if tok == "delete":
+            self.eat("delete"); self.eat("["); self.eat("]")
+            e = self.unary()
+            self.eat(";")
+            return ("delete", e)
+        if tok in ("while", "do", "switch", "goto", "break", "continue", "try", "throw"):
+            raise Refuse(f"{self.fn}: statement `{tok}` is outside the translated subset")
+        if self.is_decl():
+            d = self.decl()
+            self.eat(";")
+            return d
+        e = self.expr()
+        self.eat(";")
+        return ("expr", e)
+
+    def expr(self):
+        e = self.assign()
+        if self.peek() == ",":
+            raise Refuse(f"{self.fn}: comma operator outside a for-step")
+        return e
+
+    def assign(self):
+        lhs = self.lor()
+        if self.peek() == "=":
+            self.eat()
+            return ("assign", lhs, self.assign())
+        if self.peek() in ("|=", "+=", "-=", "&=", "?"):
+            raise Refuse(f"{self.fn}: operator `{self.peek()}` is outside the translated subset")
+        return lhs
+
+    def lor(self):
+        a = self.land()
+        while self.peek() == "||":
+            self.eat()
+            a = ("bin", "||", a, self.land())
+        return a
+
+    def land(self):
+        a = self.equality()
+        while self.peek() == "&&":
+            self.eat()
+            a = ("bin", "&&", a, self.equality())
+        return a
+
+    def equality(self):
+        a = self.relational()
+        while self.peek() in ("==", "!="):
+            op = self.eat()
+            a = ("bin", op, a, self.relational())
+        return a
+
+    def relational(self):
+        a = self.additive()
+        while self.peek() in ("<", ">", "<=", ">="):
+            op = self.eat()
+            a = ("bin", op, a, self.additive())
+        return a
+
+    def additive(self):
+        a = self.unary()
+        while self.peek() in ("+", "-"):
+            op = self.eat()
+            a = ("bin", op, a, self.unary())
+        if self.peek() in ("*", "/", "%", "&", "|", "^"):
+            raise Refuse(f"{self.fn}: operator `{self.peek()}` is outside the translated subset")
+        return a
+
+    def unary(self):
+        tok = self.peek()
+        if tok == "!":
+            self.eat()
+            return ("not", self.unary())
+        if tok in ("++", "--"):
+            self.eat()
+            return ("preinc" if tok == "++" else "predec", self.unary())
+        if tok == "*":
+            self.eat()
+            return ("deref", self.unary())
+        if tok == "&":
+            self.eat()
+            return ("addr", self.unary())
+        if tok == "(":
+            # a cast `(T*)`, `(const T*)`, `(char*)`: pointer representation unchanged
+            j = 1
+            if self.peek(j) == "const":
+                j += 1
+            if self.peek(j) in ("T", "char") and self.peek(j + 1) == "*" and self.peek(j + 2) == ")":
+                self.i += j + 3
+                return self.unary()
+        if tok == "new":
+            self.eat()
+            if self.peek() == "char":
+                self.eat(); self.eat("[")
+                depth, j = 1, self.i
+                while depth:
+                    if self.t[j] == "[":
+                        depth += 1
+                    elif self.t[j] == "]":
+                        depth -= 1
+                    j += 1
+                text = "".join(self.t[self.i:j - 1])
+                self.i = j
+                m = (re.fullmatch(r"sizeof\(T\)\*(\w+)", text) or re.fullmatch(r"(\w+)\*sizeof\(T\)", text) or
+                     re.fullmatch(r"(\w+)>\(usize\)-1/sizeof\(T\)\?\(usize\)-1:sizeof\(T\)\*\1", text))
+                if not m:
+                    raise Refuse(f"{self.fn}: allocation size `{text}` is not `sizeof(T) * n` (optionally with the overflow guard)")
+                return ("alloc", ("id", m.group(1)))
+            self.eat("(")
+            dest = self.expr()
+            self.eat(")"); self.eat("T"); self.eat("(")
+            src = self.expr()
+            self.eat(")")
+            if src[0] != "deref":
+                raise Refuse(f"{self.fn}: placement-new whose argument is not `*pointer`")
+            return ("construct", dest, src[1])
+        if tok in ("~", "-", "+", "sizeof", "delete"):
+            raise Refuse(f"{self.fn}: operator `{tok}` is outside the translated subset")
+        return self.postfix()
+
+    def postfix(self):
+        tok = self.eat()
+        if tok == "(":
+            a = self.expr()
+            self.eat(")")
+        elif re.fullmatch(r"\d+|0[xX][0-9a-fA-F]+", tok):
+            a = ("num", int(tok, 0))
+        elif IDENT.match(tok):
+            if self.peek() == "(":
+                self.eat("(")
+                args = []
+                if self.peek() != ")":
+                    args.append(self.assign())
+                    while self.peek() == ",":
+                        self.eat()
+                        args.append(self.assign())
+                self.eat(")")
+                a = ("call", tok, args)
+            else:
+                a = ("id", tok)
+        else:
+            raise Refuse(f"{self.fn}: unexpected token {tok!r}")
+        while self.peek() in ("->", ".", "[", "++", "--"):
+            op = self.eat()
+            if op == "->" and self.peek() == "~":
+                self.eat("~"); self.eat("T"); self.eat("("); self.eat(")")
+                a = ("destroy", a)
+                continue
+            if op != ".":
+                raise Refuse(f"{self.fn}: operator `{op}` is outside the translated subset")
+            f = self.eat()
+            if not IDENT.match(f) or self.peek() == "(":
+                raise Refuse(f"{self.fn}: member `{f}` / member call is outside the translated subset")
+            a = ("dot", a, f)
+        return a
+
+
+LEAN_TY = {"ptr": "Option P", "nat": "Nat"}
+EFFECTS = ("assign", "preinc", "predec", "call", "alloc", "construct", "destroy")
+
+
+def has_effects(e):
+    if not isinstance(e, tuple):
+        return False
+    if e[0] in EFFECTS:
+        return True
+    return any(has_effects(x) for x in e[1:] if isinstance(x, (tuple, list)))
+
+
+class TrA:
+    """C++ member function of Array -> Lean function `fuel M A params… : Option (Mem × Arr [× result])`"""
+
+    def __init__(self, fn, lean_name, params, ret, callees, loops):
+        self.fn, self.lean_name, self.params, self.ret, self.callees, self.loops = fn, lean_name, params, ret, callees, loops
+        self.n = 0
+        self.nloop = 0
+        self.in_loop = 0
+
+    def fresh(self):
+        self.n += 1
+        return f"t{self.n}"
+
+    def result(self, extra=None):
+        return "some (M, A)" if extra is None else f"some (M, A, {extra})"
+
+    # ---- conditions: side-effect free, cannot fault
+    def atom(self, e, env):
+        k = e[0]
+        if k == "num":
+            return str(e[1]), "nat"
+        if k == "id":
+            if e[1] in env:
+                return "v_" + e[1], env[e[1]]
+            if e[1] == "_capacity":
+                return "A.cap", "nat"
+            raise Refuse(f"{self.fn}: unknown identifier `{e[1]}`")
+        if k == "dot" and e[2] == "item" and e[1][0] == "id":
+            b = e[1][1]
+            if b == "_begin":
+                return "A.begin", "ptr"
+            if b == "_end":
+                return "A.end_", "ptr"
+            if self.params.get(b) == "iter":
+                return "v_" + b, "ptr"
+        if k == "addr" and e[1][0] == "id" and self.params.get(e[1][1]) == "ref":
+            return "v_" + e[1][1], "ptr"
+        return None
+
+    def bterm(self, e, env):
+        k = e[0]
+        if k == "not":
+            return f"(!{self.bterm(e[1], env)})"
+        if k == "bin" and e[1] in ("&&", "||"):
+            return f"({self.bterm(e[2], env)} {e[1]} {self.bterm(e[3], env)})"
+        if k == "bin" and e[1] in ("<", ">", "<=", ">=", "==", "!="):
+            a, b = self.atom(e[2], env), self.atom(e[3], env)
+            if a is None or b is None:
+                raise Refuse(f"{self.fn}: comparison of something other than variables / members / numbers")
+            (ta, tya), (tb, tyb) = a, b
+            op = e[1]
+            if tya == "ptr" and tyb == "nat" and tb == "0":
+                tb, tyb = "none", "ptr"
+            if tya == "ptr" and tyb == "ptr":
+                f = {"<": f"AM.plt {ta} {tb}", ">": f"AM.plt {tb} {ta}", ">=": f"AM.pge {ta} {tb}", "<=": f"AM.pge {tb} {ta}",
+                     "==": f"AM.peq {ta} {tb}", "!=": f"AM.pne {ta} {tb}"}[op]
+                return f"({f})"
+            if tya == "nat" and tyb == "nat":
+                lop = {"<": "<", ">": ">", "<=": "≤", ">=": "≥", "==": "=", "!=": "≠"}[op]
+                return f"(decide ({ta} {lop} {tb}))"
+            raise Refuse(f"{self.fn}: comparison `{op}` between {tya} and {tyb}")
+        a = self.atom(e, env)
+        if a is None:
+            raise Refuse(f"{self.fn}: condition `{e[0]}` is outside the translated subset")
+        t, ty = a
+        if ty == "ptr":
+            return f"({t}).isSome"
+        if ty == "nat":
+            return f"(decide ({t} ≠ 0))"
+        raise Refuse(f"{self.fn}: condition of type {ty}")
+
+    # ---- expressions, continuation-passing: k(term, type, ind) -> lines
+    def fault(self, call, pat, ind, k):
+        return [f"{ind}match {call} with", f"{ind}| none => none", f"{ind}| some {pat} =>"] + k(ind + "  ")
+
+    def ev(self, e, env, ind, k):
+        kind = e[0]
+        a = self.atom(e, env)
+        if a is not None:
+            return k(a[0], a[1], ind)
+        if kind == "deref":
+            def after(t, ty, i):
+                if ty != "ptr":
+                    raise Refuse(f"{self.fn}: `*` applied to a value of type {ty}")
+                x = self.fresh()
+                return self.fault(f"AM.rd M {t}", x, i, lambda i2: k(x, "val", i2))
+            return self.ev(e[1], env, ind, after)
+        if kind == "bin":
+            op, ea, eb = e[1], e[2], e[3]
+            if op not in ("+", "-"):
+                return k(self.bterm(e, env), "bool", ind)
+            if has_effects(ea) or has_effects(eb):
+                raise Refuse(f"{self.fn}: operand of `{op}` with a side effect")
+
+            def after_a(ta, tya, i1):
+                def after_b(tb, tyb, i2):
+                    x = self.fresh()
+                    if op == "+" and tya == "nat" and tyb == "nat":
+                        return k(f"({ta} + {tb})", "nat", i2)
+                    if op == "+" and tya == "ptr" and tyb == "nat":
+                        return self.fault(f"AM.padd {ta} {tb}", x, i2, lambda i3: k(x, "ptr", i3))
+                    if op == "+" and tya == "nat" and tyb == "ptr":
+                        return self.fault(f"AM.padd {tb} {ta}", x, i2, lambda i3: k(x, "ptr", i3))
+                    if op == "-" and tya == "ptr" and tyb == "ptr":
+                        return self.fault(f"AM.pdiff {ta} {tb}", x, i2, lambda i3: k(x, "nat", i3))
+                    if op == "-" and tya == "ptr" and tb == "1":
+                        return self.fault(f"AM.pdec {ta}", x, i2, lambda i3: k(x, "ptr", i3))
+                    raise Refuse(f"{self.fn}: `{tya} {op} {tyb}` is outside the translated subset")
+                return self.ev(eb, env, i1, after_b)
+            return self.ev(ea, env, ind, after_a)
+        if kind in ("preinc", "predec"):
+            lv = self.lvalue(e[1], env)
+            t, ty = self.atom(e[1], env)
+            if ty == "nat":
+                if kind == "predec":
+                    raise Refuse(f"{self.fn}: `--` on a usize")
+                x = self.fresh()
+                return [f"{ind}let {x} := {t} + 1"] + self.store(lv, x, "nat", env, ind, lambda i: k(x, "nat", i))
+            x = self.fresh()
+            call = f"AM.padd {t} 1" if kind == "preinc" else f"AM.pdec {t}"
+            return self.fault(call, x, ind, lambda i: self.store(lv, x, "ptr", env, i, lambda i2: k(x, "ptr", i2)))
+        if kind == "assign":
+            lhs, rhs = e[1], e[2]
+            if lhs[0] == "deref":
+                if has_effects(lhs[1]):
+                    raise Refuse(f"{self.fn}: assignment through a pointer expression with a side effect")
+
+                def after_rhs(t, ty, i):
+                    if ty != "val":
+                        raise Refuse(f"{self.fn}: a value of type {ty} assigned to an element")
+                    return self.ev(lhs[1], env, i, lambda tp, typ, i2: self.fault(f"AM.asg M {tp} {t}", "M", i2, lambda i3: k(t, "val", i3)))
+                return self.ev(rhs, env, ind, after_rhs)
+            lv = self.lvalue(lhs, env)
+
+            def after_rhs2(t, ty, i):
+                if lv[2] == "ptr" and ty == "nat" and t == "0":
+                    t, ty = "none", "ptr"
+                x = self.fresh()
+                return [f"{i}let {x} := {t}"] + self.store(lv, x, ty, env, i, lambda i2: k(x, ty, i2))
+            return self.ev(rhs, env, ind, after_rhs2)
+        if kind == "alloc":
+            def after_n(t, ty, i):
+                if ty != "nat":
+                    raise Refuse(f"{self.fn}: allocation size of type {ty}")
+                x = self.fresh()
+                return [f"{i}let {x} := AM.allocPtr M", f"{i}let M := AM.alloc M {t}"] + k(x, "ptr", i)
+            return self.ev(e[1], env, ind, after_n)
+        if kind == "call":
+            name, args = e[1], e[2]
+            key = (name, len(args))
+            if key not in self.callees:
+                raise Refuse(f"{self.fn}: call of `{name}` with {len(args)} argument(s) is outside the translated subset")
+            lean, ptys, rty = self.callees[key]
+            if any(has_effects(x) for x in args):
+                raise Refuse(f"{self.fn}: argument of `{name}` with a side effect")
+            terms = []
+
+            def go(j, i):
+                if j == len(args):
+                    call = f"{lean} fuel M A " + " ".join(terms)
+                    if rty is None:
+                        return self.fault(call, "(M, A)", i, lambda i2: k("()", "void", i2))
+                    x = self.fresh()
+                    return self.fault(call, f"(M, A, {x})", i, lambda i2: k(x, rty, i2))
+
+                def after(t, ty, i2):
+                    if ty != ptys[j]:
+                        raise Refuse(f"{self.fn}: argument {j + 1} of `{name}` has type {ty}, expected {ptys[j]}")
+                    terms.append(t if re.fullmatch(r"[\w.]+", t) else f"({t})")
+                    return go(j + 1, i2)
+                return self.ev(args[j], env, i, after)
+            return go(0, ind)
+        raise Refuse(f"{self.fn}: expression `{kind}` is outside the translated subset")
+
+    def lvalue(self, e, env):
+        """('local', name, ty) | ('member', field, ty)"""
+        if e[0] == "id" and e[1] in env:
+            return ("local", e[1], env[e[1]])
+        if e[0] == "id" and e[1] == "_capacity":
+            return ("member", "cap", "nat")
+        if e[0] == "dot" and e[2] == "item" and e[1] == ("id", "_begin"):
+            return ("member", "begin", "ptr")
+        if e[0] == "dot" and e[2] == "item" and e[1] == ("id", "_end"):
+            return ("member", "end_", "ptr")
+        raise Refuse(f"{self.fn}: `{e[0]}` is not an assignable variable / member of the translated subset")
+
+    def store(self, lv, term, ty, env, ind, k):
+        if ty != lv[2]:
+            raise Refuse(f"{self.fn}: a value of type {ty} stored into `{lv[1]}` of type {lv[2]}")
+        if lv[0] == "local":
+            return [f"{ind}let v_{lv[1]} := {term}"] + k(ind)
+        return [f"{ind}let A := {{ A with {lv[1]} := {term} }}"] + k(ind)
+
+    # ---- statements
+    @staticmethod
+    def restrict(env, outer):
+        return {n: t for n, t in env.items() if n in outer}
+
+    def run(self, stmts, env, ind, tail):
+        if not stmts:
+            return tail(env, ind)
+        s, rest = stmts[0], stmts[1:]
+        cont = lambda env2, ind2: self.run(rest, env2, ind2, tail)
+        k = s[0]
+        if k == "block":
+            return self.run(list(s[1]), dict(env), ind, lambda env2, ind2: cont(self.restrict(env2, env), ind2))
+        if k == "decl":
+            def go(j, env2, i):
+                if j == len(s[1]):
+                    return cont(env2, i)
+                ty, name, init = s[1][j]
+                if name in env2 or name in ("M", "A", "fuel"):
+                    raise Refuse(f"{self.fn}: `{name}` declared twice")
+                env3 = dict(env2)
+                env3[name] = ty
+                if init is None:
+                    if ty != "ptr":
+                        raise Refuse(f"{self.fn}: uninitialised `usize {name}`")
+                    return [f"{i}let v_{name} : Option P := none"] + go(j + 1, env3, i)
+
+                def after(t, ety, i2):
+                    if ty == "ptr" and ety == "nat" and t == "0":
+                        t, ety = "none", "ptr"
+                    if ety != ty:
+                        raise Refuse(f"{self.fn}: `{name}` ({ty}) initialised with a value of type {ety}")
+                    return [f"{i2}let v_{name} := {t}"] + go(j + 1, env3, i2)
+                return self.ev(init, env2, i, after)
+            return go(0, env, ind)
+        if k == "if":
+            c = self.bterm(s[1], env)
+            back = lambda env2, ind2: cont(self.restrict(env2, env), ind2)
+            return ([f"{ind}if {c} then"] + self.run([s[2]], dict(env), ind + "  ", back) +
+                    [f"{ind}else"] + self.run([s[3]], dict(env), ind + "  ", back))
+        if k == "return":
+            if self.in_loop:
+                raise Refuse(f"{self.fn}: `return` inside a loop is outside the translated subset")
+            if s[1] is None:
+                if self.ret is not None:
+                    raise Refuse(f"{self.fn}: `return;` in a function that returns a value")
+                return [f"{ind}{self.result()}"]
+            if self.ret is None:
+                raise Refuse(f"{self.fn}: value returned from a void function")
+            e = s[1]
+            if self.ret == "ref":
+                if e[0] != "deref":
+                    raise Refuse(f"{self.fn}: a reference is returned that is not `*pointer`")
+                e = e[1]
+
+            def after(t, ty, i):
+                if ty != "ptr":
+                    raise Refuse(f"{self.fn}: returns a value of type {ty}")
+                return [f"{i}{self.result(t)}"]
+            return self.ev(e, env, ind, after)
+        if k == "delete":
+            return self.ev(s[1], env, ind, lambda t, ty, i: self.fault(f"AM.del M {t}", "M", i, lambda i2: cont(env, i2)))
+        if k == "expr":
+            e = s[1]
+            if e[0] == "construct":
+                if has_effects(e[1]) or has_effects(e[2]):
+                    raise Refuse(f"{self.fn}: placement-new with a side effect in its operands")
+
+                def after_src(ts, tys, i):
+                    v = self.fresh()
+                    return self.fault(f"AM.rd M {ts}", v, i, lambda i2: self.ev(
+                        e[1], env, i2, lambda td, tyd, i3: self.fault(f"AM.con M {td} {v}", "M", i3, lambda i4: cont(env, i4))))
+                return self.ev(e[2], env, ind, after_src)
+            if e[0] == "destroy":
+                return self.ev(e[1], env, ind, lambda t, ty, i: self.fault(f"AM.des M {t}", "M", i, lambda i2: cont(env, i2)))
+            if not has_effects(e):
+                raise Refuse(f"{self.fn}: expression statement without effect")
+            return self.ev(e, env, ind, lambda t, ty, i: cont(env, i))
+        if k == "for":
+            init, cond, steps, body = s[1], s[2], s[3], s[4]
+            if cond is None:
+                raise Refuse(f"{self.fn}: loop without a condition")
+
+            def after_init(env1, ind1):
+                self.nloop += 1
+                name = f"{self.lean_name}_loop{self.nloop}"
+                vs = list(env1.items())
+                names = " ".join("v_" + n for n, _ in vs)
+                tup = ", ".join(["M", "A"] + ["v_" + n for n, _ in vs])
+                rty = " × ".join(["Mem", "Arr"] + [LEAN_TY[t] for _, t in vs])
+                c = self.bterm(cond, env1)
+                self.in_loop += 1
+                inner = self.run([body] + [("expr", x) for x in steps], dict(env1), "      ",
+                                 lambda env2, ind2: [f"{ind2}{name} fuel M A {names}".rstrip()])
+                self.in_loop -= 1
+                sig = " → ".join(["Nat", "Mem", "Arr"] + [LEAN_TY[t] for _, t in vs] + [f"Option ({rty})"])
+                self.loops.append([f"def {name} : {sig}",
+                                   "  | 0, " + ", ".join(["_"] * (2 + len(vs))) + " => none",
+                                   f"  | fuel + 1, {tup} =>",
+                                   f"    if {c} then"] + inner + ["    else", f"      some ({tup})", ""])
+                return ([f"{ind1}match {name} fuel M A {names} with".replace("  with", " with"), f"{ind1}| none => none",
+                         f"{ind1}| some ({tup}) =>"] + cont(self.restrict(env1, env), ind1 + "  "))
+            return self.run([init] if init else [], dict(env), ind, after_init)
+        raise Refuse(f"{self.fn}: statement `{k}`")
+
+
+def split_reserve(toks):
+    """body of reserve(usize) = `if(<guard>) { <capacity policy> T* x = (T*)new char[…]; <rest> }` -> tokens from the
+    allocation statement on.  The guard and the policy may only read `size`, `_capacity`, `_begin.item` and assign `_capacity`."""
+    fn = "Array::reserve"
+    if toks[:2] != ["if", "("]:
+        raise Refuse(f"{fn}: the body does not start with `if(`")
+    depth, j = 0, 1
+    while True:
+        if toks[j] == "(":
+            depth += 1
+        elif toks[j] == ")":
+            depth -= 1
+            if depth == 0:
+                break
+        j += 1
+    guard = toks[2:j]
+    if toks[j + 1] != "{" or toks[-1] != "}":
+        raise Refuse(f"{fn}: the guarded statement is not one block that ends the function")
+    inner = toks[j + 2:-1]
+    depth = 0
+    for k in range(len(inner)):
+        if inner[k] == "{":
+            depth += 1
+        elif inner[k] == "}":
+            depth -= 1
+        if depth < 0:
+            raise Refuse(f"{fn}: statements after the guarded block")
+    pat = ["T", "*", None, "=", "(", "T", "*", ")", "new", "char", "["]
+    at = None
+    depth = 0
+    for k in range(len(inner) - len(pat)):
+        if inner[k] == "{":
+            depth += 1
+        elif inner[k] == "}":
+            depth -= 1
+        if depth == 0 and (k == 0 or inner[k - 1] in (";", "}")) and all(p is None or inner[k + q] == p for q, p in enumerate(pat)):
+            at = k
+            break
+    if at is None:
+        raise Refuse(f"{fn}: no statement `T* x = (T*)new char[…];` at the top level of the guarded block")
+    policy = guard + inner[:at]
+    allowed = {"if", "else", "(", ")", "{", "}", "size", "_capacity", "_begin", ".", "item", "!", "&&", "||", ">", "<", ">=", "<=",
+               "==", "!=", "?", ":", ";", "+", "-", "&", "|", "^", "~", "*", "/", "%", "=", "|=", "+=", "-=", "&="}
+    for q, tok in enumerate(policy):
+        if tok not in allowed and not re.fullmatch(r"\d+|0[xX][0-9a-fA-F]+", tok):
+            raise Refuse(f"{fn}: token `{tok}` in the guard / capacity computation (only size, _capacity, _begin.item may be used)")
+        if tok in ("=", "|=", "+=", "-=", "&=") and (q == 0 or policy[q - 1] != "_capacity"):
+            raise Refuse(f"{fn}: the guard / capacity computation assigns something other than `_capacity`")
+    return inner[at:]
+
+
+AFUNCS = [
+    # (C++ name for messages, lean name, signature regex, params [(name, kind)], return kind)
+    ("Array::reserve(usize)", "reserve", r"void\s+reserve\s*\(\s*usize\s+size\s*\)", [("size", "nat")], None),
+    ("Array::reserve(usize, const T*)", "reserve2", r"const\s+T\s*\*\s*reserve\s*\(\s*usize\s+size\s*,\s*const\s+T\s*\*\s*ref\s*\)",
+     [("size", "nat"), ("ref", "ptr")], "ptr"),
+    ("Array::resize", "resize", r"void\s+resize\s*\(\s*usize\s+size\s*,\s*const\s+T\s*&\s*value(?:\s*=\s*T\s*\(\s*\))?\s*\)",
+     [("size", "nat"), ("value", "ref")], None),
+    ("Array::clear", "clear", r"void\s+clear\s*\(\s*\)", [], None),
+    ("Array::append(const T&)", "appendValue", r"T\s*&\s*append\s*\(\s*const\s+T\s*&\s*value\s*\)", [("value", "ref")], "ref"),
+    ("Array::append(const T*, usize)", "appendPtr", r"void\s+append\s*\(\s*const\s+T\s*\*\s*values\s*,\s*usize\s+size\s*\)",
+     [("values", "ptr"), ("size", "nat")], None),
+    ("Array::remove(usize)", "removeIndex", r"void\s+remove\s*\(\s*usize\s+index\s*\)", [("index", "nat")], None),
+    ("Array::remove(const Iterator&)", "removeIter", r"Iterator\s+remove\s*\(\s*const\s+Iterator\s*&\s*it\s*\)", [("it", "iter")], "ptr"),
+]
+ACALLEES = {("reserve", 1): ("reserve", ["nat"], None), ("reserve", 2): ("reserve2", ["nat", "ptr"], "ptr")}
+
+
+def generate_array(repo, out_path):
+    """include/nstd/Array.hpp -> out_path (written only when the content changes); returns a summary; raises Refuse"""
+    src = resolve_verify(strip_comments((Path(repo) / "include/nstd/Array.hpp").read_text()))
+    parts = ["/- generated by tools/gen_seq.py from include/nstd/Array.hpp - do not edit -/",
+             "import Nstd.Seq.ArrMem", "", "set_option linter.unusedVariables false", "",
+             "namespace Nstd.Generated.SeqArr", "open Nstd.Seq", "open Nstd.Seq.AM (Mem Arr P)", "open Nstd.Seq.Raw (Cells)", "",
+             "variable [ArrCfg]", ""]
+    summary = []
+    for fn, lean, rx, params, ret in AFUNCS:
+        body = extract(src, fn, rx)
+        if "#" in body:
+            raise Refuse(f"{fn}: preprocessor directive inside the body")
+        toks = atokenize(body)
+        header = []
+        if lean == "reserve":
+            toks = split_reserve(toks)
+        p = AP(toks, fn)
+        stmts = p.stmts()
+        if p.peek() is not None:
+            raise Refuse(f"{fn}: trailing tokens")
+        loops = []
+        tr = TrA(fn, lean, {n: k for n, k in params}, ret, ACALLEES, loops)
+        env = {n: ("ptr" if k in ("ptr", "ref", "iter") else "nat") for n, k in params}
+
+        def tail(env2, ind2, tr=tr, fn=fn):
+            if tr.ret is not None:
+                raise Refuse(f"{fn}: control reaches the end of a function that returns a value")
+            return [f"{ind2}{tr.result()}"]
+        sig = "".join(f" (v_{n} : {LEAN_TY[env[n]]})" for n, _ in params)
+        rty = "Option (Mem × Arr)" if ret is None else "Option (Mem × Arr × Option P)"
+        if lean == "reserve":
+            lines = tr.run(stmts, env, "    ", tail)
+            lines = (["  -- guard and capacity rounding: NOT translated (the model's rule; tied by the executed probe, SeqConst.lean)",
+                      "  if v_size > A.cap ∨ (A.begin.isNone ∧ v_size > 0) then",
+                      "    let A := { A with cap := (if v_size > A.cap then v_size else A.cap) ||| ArrCfg.mask }"] + lines +
+                     ["  else some (M, A)"])
+        else:
+            lines = tr.run(stmts, env, "  ", tail)
+        parts += [f"/-! ### {fn} -/"]
+        for l in loops:
+            parts += l
+        parts += [f"def {lean} (fuel : Nat) (M : Mem) (A : Arr){sig} : {rty} :="] + lines + [""]
+        summary.append(f"{fn}:{len(stmts)} stmts/{len(loops)} loop(s)")
+    parts += ["end Nstd.Generated.SeqArr", ""]
+    text = "\n".join(parts)
+    out_path = Path(out_path)
+    out_path.parent.mkdir(parents=True, exist_ok=True)
+    if not out_path.exists() or out_path.read_text() != text:
+        out_path.write_text(text)
+    return ", ".join(summary)
+
+
 if __name__ == "__main__":
     repo = sys.argv[1] if len(sys.argv) > 1 else "/repo"
-    out = sys.argv[2] if len(sys.argv) > 2 else str(Path(__file__).resolve().parents[1] / "lean/Nstd/Generated/SeqLink.lean")
+    gen_dir = Path(sys.argv[2]) if len(sys.argv) > 2 else Path(__file__).resolve().parents[1] / "lean/Nstd/Generated"
     try:
-        print(generate(repo, out))
+        print(generate(repo, gen_dir / "SeqLink.lean"))
+        print(generate_array(repo, gen_dir / "SeqArr.lean"))
     except Refuse as e:
         print("REFUSED:", e)
         sys.exit(1)
